@@ -323,7 +323,7 @@ impl Property for C31 {
         "for an IPv4-mapped subnet string the mask counts bits of the 128-bit form: 96..=128 fits, it means mask-96 IPv4 bits",
     ];
     const QUICK_CASES: u32 = 2_000_000;
-    const THOROUGH_CASES: u32 = 30_000_000;
+    const THOROUGH_CASES: u32 = 92_000_000;
 
     fn strategy(_tier: Tier) -> BoxedStrategy<Case> {
         case_strategy()
